@@ -516,6 +516,10 @@ def run(case):
                 ga_ref[i, :2] = mono(exps[j], xqa)[1]
             ga_ref[2, 2] = mono(exps[pick[1]], xqa)[0] / xqa[1]
             cmp("axisymmetric/grad", "axisymmetric gradient incl. hoop term u_r/R", ga, ga_ref)
+            # the symmetric part asked for at the field itself (grad(sym=True)), for every field class
+            cmp("axisymmetric/grad_sym", "axisymmetric gradient, symmetric part (grad(sym=True))", fa.grad(sym=True), 0.5 * (ga_ref + ga_ref.transpose(1, 0, 2, 3)))
+            cmp("planestrain/grad_sym", "plane-strain gradient, symmetric part (grad(sym=True))", fps.grad(sym=True), 0.5 * (ref3 + ref3.transpose(1, 0, 2, 3)))
+            cnt["trans"] += 2
             cmp("axisymmetric/radius", "radius at quadrature points", fa.radius, xqa[1][None] if np.ndim(fa.radius) == 3 else xqa[1])
 
     # ---- out= buffers with a history (zeros, garbage, NaN, the result of another evaluation mode) handed to the field methods:
